@@ -12,6 +12,7 @@ import Adlt.Plugins.Drv
 import Adlt.Remote.Drv
 import Adlt.Remote.IncrDrv
 import Adlt.Convert.Drv
+import Adlt.Safe.Drv
 /-! `driver <area>`: reads `case \t implobs` lines on stdin, prints one result line each. -/
 def main (args : List String) : IO UInt32 := do
   let stdin ← IO.getStdin
@@ -32,4 +33,6 @@ def main (args : List String) : IO UInt32 := do
   | ["rem"] => Util.loop stdin Rem.doLine; return 0
   | ["rsn"] => Util.loop stdin Inc.doLine; return 0
   | ["cvt"] => Util.loop stdin Cvt.doLine; return 0
+  | ["c03"] => Util.loop stdin Safe.doLine; return 0
+  | ["c03f"] => Util.loop stdin Safe.doLineF; return 0
   | _ => IO.eprintln "usage: driver <area>"; return 2
